@@ -30,9 +30,10 @@ Hash(s) == (s.base + 13 * ModeCode(s.modes["t1"]) + 17 * ModeCode(s.modes["t2"])
             + (IF s.hasSource THEN 0 ELSE 47)) % NParts
 
 LexOf(s) == [n \in NodeSet |-> [mode |-> IF s.hasMaps THEN s.modes[n] ELSE "none", range |-> Rot(Ranges[s.base], Idx(n))]]
+\* the file names are reproduced as recorded: blanks, brackets, an upper-case scheme are part of the name
 SrcOf(s) == [root |-> "file:///root.raml",
-             additional |-> [f \in {"file:///add1.raml", "file:///add2.raml"} |->
-                               {n \in NodeSet : s.files[n] = (IF f = "file:///add1.raml" THEN "add1" ELSE "add2")}]]
+             additional |-> [f \in {"file:///home/dev/API specs/[v2]/add1.raml", "FILE:///C:/Specs/Add2.RAML"} |->
+                               {n \in NodeSet : s.files[n] = (IF f = "file:///home/dev/API specs/[v2]/add1.raml" THEN "add1" ELSE "add2")}]]
 
 VARIABLE s
 Init == s \in {x \in Scenarios : /\ Hash(x) = Part
@@ -42,7 +43,7 @@ Next == UNCHANGED s
 
 Facts == /\ WellFormedSource(SrcOf(s))
          /\ \A n \in NodeSet : HasLocation(n, LexOf(s)) => Location(n, LexOf(s), SrcOf(s)).uri \in
-                                  {"file:///root.raml", "file:///add1.raml", "file:///add2.raml"}
+                                  {"file:///root.raml", "file:///home/dev/API specs/[v2]/add1.raml", "FILE:///C:/Specs/Add2.RAML"}
          /\ ~s.hasMaps => \A n \in NodeSet : ~HasLocation(n, LexOf(s))
 
 Emit == PrintT("CASE " \o ToJson([lex |-> LexOf(s), src |-> SrcOf(s), hasMaps |-> s.hasMaps, hasSource |-> s.hasSource,
